@@ -31,6 +31,36 @@ COMMENT_SEPS = ["/*c*/", "/**c**/", "/***/", "/*c**/", "/****/", "--c\n", "/*;*/
 TOK = re.compile(r"'(?:[^'\\]|\\.|'')*'|\"(?:[^\"\\]|\\.)*\"|`[^`]*`|\d+\.\d+|\w+|<=>|<=|>=|<>|!=|<<|>>|&&|\|\||==|[^\w\s]", re.S)
 
 
+def bracket_item(ws, rng):
+    """put one comment in front of a list separator and another behind the item that follows it: if the lexer let the first comment run on to the
+    end of the second, `, item` would vanish and the rest would still be a statement"""
+    depth, cands = 0, []
+    for i, w in enumerate(ws):
+        if w == "(":
+            depth += 1
+        elif w == ")":
+            depth -= 1
+        elif w == ",":
+            d2 = depth
+            for j in range(i + 1, len(ws)):
+                if ws[j] == "(":
+                    d2 += 1
+                elif ws[j] == ")":
+                    d2 -= 1
+                    if d2 < depth:
+                        cands.append((i, j))
+                        break
+                elif d2 == depth and (ws[j] == "," or ws[j].upper() in ("FROM", "WHERE", "VALUES")):
+                    cands.append((i, j))
+                    break
+    if not cands:
+        return None
+    i, j = rng.choice(cands)
+    first = rng.choice(["/*c**/", "/**c**/", "/***c**/", "/*c*/", "/**/", "/*c\n**/"])
+    out = ws[:i] + [first + ws[i]] + ws[i + 1:j] + ["/*d*/" + ws[j]] + ws[j + 1:]
+    return " ".join(out)
+
+
 def rename(text):
     """replace every identifier / literal by a unique marker; returns (new text, markers)"""
     ws = TOK.findall(text)
@@ -86,7 +116,11 @@ def run(run):
         if tree["_"] == "ASTAlterTableStatement" and d != "MYSQL":
             d = "MYSQL"
         t2, marks = rename(t)
-        if run.rng.random() < 0.3:
+        if run.rng.random() < 0.25:
+            t3 = bracket_item(t2.split(" "), run.rng)
+            if t3:
+                t2 = t3
+        elif run.rng.random() < 0.3:
             # comments (written without blanks) in place of some separators: nothing next to a comment may vanish
             ws = t2.split(" ")
             t2 = ws[0]
